@@ -443,6 +443,33 @@ func C11(p *ir.Program, r *report.R) {
 	// installed, so every decode starts from a fresh value.
 	proposalBlockAndPartsChangeTogether(c)
 
+	// ---- a type prefix never starts with the nil marker -----------------------------------------------------------------
+	// A first byte 0x00 on the wire means "nil interface" to both the writer and the decoder. nameToDisfix
+	// therefore skips leading zero bytes of the name hash before it takes the disambiguation and the prefix
+	// bytes: each copy is reached only after a loop that exits on bz[0] != 0.
+	{
+		nd := p.Func("libs/ser", "nameToDisfix")
+		n := 0
+		ir.Instrs(nd, func(in ssa.Instruction) {
+			call, ok := in.(*ssa.Call)
+			if !ok {
+				return
+			}
+			if bi, isB := call.Call.Value.(*ssa.Builtin); !isB || bi.Name() != "copy" {
+				return
+			}
+			n++
+			okZ := false
+			for _, a := range ir.FactsAt(in) {
+				if ir.MatchAtom("!eq(*[0],0)", a.Atom) {
+					okZ = true
+				}
+			}
+			r.Check("K1", fmt.Sprintf("ser.nameToDisfix/copy#%d/no-leading-zero", n), p.InstrPos(in), okZ, "the bytes copied into a type prefix start with a non-zero byte (0x00 is the nil marker)")
+		})
+		r.Check("K1", "ser.nameToDisfix/copies", p.Pos(nd.Pos()), n == 2, fmt.Sprintf("%d copies (disambiguation bytes, prefix bytes)", n))
+	}
+
 	// ---- bounds are tested without overflowing sums -----------------------------------------------------------------
 	// Sizes read from the input are 64-bit values the sender chooses. A bound of the form `a + b > limit`
 	// wraps for a near 2^64 and lets the value through (the callers then slice with it and panic); the codec
